@@ -228,6 +228,12 @@ func (c *c08) startReader(start int64, committed bool) {
 				h.fail("C08/live", "C08/live/order", "%s: offset %d after %d", who, off, lr.offs[n-1])
 				return
 			}
+			// (with retention configured the cleaner may delete past a lagging HW, which leaves the HW
+			// below the start of the log: readers then have no defined bound, so only pure compaction runs are judged)
+			if committed && off > h.hw && h.prog.Param("ret_msgs", 0) == 0 {
+				h.fail("C08/live", "C08/live/above-hw", "%s: got offset %d above hw %d", who, off, h.hw)
+				return
+			}
 			want := c.everAppended[off]
 			if !h.compare("C08/live", who, want, m, off, ts, ep) {
 				return
@@ -294,6 +300,11 @@ func (c *c08) exec(t *testing.T, prog *hx.Program, dec *simrt.Decider, verbose b
 					break
 				}
 				nhw := h.hw + op.Arg(0, 0)*(h.next-1-h.hw)/1000
+				if nhw < h.oldest() {
+					// a high watermark below the start of the log (retention ran ahead of the HW) has no
+					// defined meaning for readers; the harness does not construct it
+					break
+				}
 				if nhw > h.hw {
 					h.hw = nhw
 				}
@@ -432,6 +443,12 @@ func (c *c08) clean(concurrent int, r *simrt.Rand) {
 		return
 	}
 	c.cleans++
+	if concurrent > 0 {
+		// the appender may have rolled segments before Clean looked at the segment list: the segment
+		// that Clean treated as "newest" lies somewhere between the newest before and the newest after
+		segs = h.log.segments
+		lastBase = segs[len(segs)-1].BaseOffset
+	}
 	hw1 := h.hw
 	_ = hw0
 	h.s.Quiet(true)
